@@ -67,11 +67,7 @@ def callName : Call → String
 def errName : Err → String
   | .ok => "ok" | .eof => "eof" | .full => "full" | .insuf => "insuf" | .nouse => "nouse"
 
-def allowed (t : Tid) (c : Call) : Bool :=
-  match t with
-  | .p => c.isProducer || c == .close || c == .len
-  | .c => c.isConsumer || c == .close || c == .len
-  | .k _ => c == .close || c == .len
+def allowed (t : Tid) (c : Call) : Bool := t.allowed c
 
 def declared (d : DSt) : Tid → Bool
   | .p => d.hasP
@@ -195,7 +191,7 @@ def needHave (d : DSt) (th : Th) : Nat × Nat :=
   | some (.rwait n) => (n, data)
   | some (.write n) => (n, space)
   | some (.wwait n) => (n, space)
-  | some (.wcommit n) => (n, space)
+  | some (.wcommit n) => (min n th.filled, space)
   | _ => (0, 0)
 
 def unfinished (th : Th) : Bool := !(th.pc == .idle && th.prog.isEmpty)
